@@ -480,6 +480,9 @@ def main(argv):
 
 def _write_evidence(prop, evidence):
     d = os.path.join(VERIF_DIR, "evidence")
+    if os.environ.get("CV_COBRA_SRC"):
+        # a run against a scratch copy (mutants, seeded changes): what it observed is not evidence about /repo
+        d = os.path.join(VERIF_DIR, ".work", "evidence-scratch")
     os.makedirs(d, exist_ok=True)
     txt = json.dumps(evidence, indent=1, default=repr, sort_keys=False)
     try:
